@@ -47,7 +47,6 @@ const (
 	saleAddr = "0x2222222222222222222222222222222222222222"
 	ethDest  = "0x00000000000000000000000000000000000000aa"
 	ethSrc   = "0x00000000000000000000000000000000000000bb"
-	nVals    = 4
 	nUsers   = 4
 	ffVar    = "PALOMA_FF_PIGEON_STATUS_UPDATE"
 	sigPfx   = "\x19Ethereum Signed Message:\n32"
@@ -75,8 +74,29 @@ func must(err error) {
 	}
 }
 
+// worldKind: which genesis and which pigeons.
+//   std   4 validators with equal power, every pigeon alive (the world of almost every history)
+//   big   powers 50/40/30/30: validator 0 holds a third of the stake and its pigeon never runs (no keep-alive, no
+//         external accounts, no duties): the jail sweeps find an inactive validator they may not jail
+//   solo  one validator whose pigeon never runs: the last active validator
+type worldKind struct {
+	name   string
+	powers []int64
+	silent map[int]bool
+}
+
+var worldKinds = map[string]worldKind{
+	"std":  {name: "std", powers: []int64{10, 10, 10, 10}},
+	"big":  {name: "big", powers: []int64{50, 40, 30, 30}, silent: map[int]bool{0: true}},
+	"solo": {name: "solo", powers: []int64{10}, silent: map[int]bool{0: true}},
+}
+
+// blockAbort is thrown when a block of the world preparation cannot be finalised (reported, never hidden).
+type blockAbort struct{ err error }
+
 // world is the prepared chain plus the external keys of the validators.
 type world struct {
+	kind    worldKind
 	base    *env.E2
 	ethKey  []*ecdsa.PrivateKey
 	ethAddr []common.Address
@@ -128,9 +148,27 @@ func TestMain(m *testing.M) {
 	os.Exit(rc)
 }
 
-// newWorld drives a fresh application to height `target` (>= 60).
+// newWorld drives a fresh application of the standard kind to height `target` (>= 60); set-up errors panic.
 func newWorld(target int64) *world {
-	e := env.NewE2(env.E2Options{Seed: drv.Seed(), Powers: []int64{10, 10, 10, 10}, NumUsers: nUsers,
+	w, stack := newWorldOf(worldKinds["std"], target)
+	if w == nil {
+		panic("standard world: " + stack)
+	}
+	return w
+}
+
+// newWorldOf builds a world; when a block of the preparation aborts, the stack is returned instead of a world.
+func newWorldOf(kind worldKind, target int64) (w *world, stack string) {
+	defer func() {
+		if r := recover(); r != nil {
+			if ba, ok := r.(blockAbort); ok {
+				w, stack = nil, ba.err.Error()
+				return
+			}
+			panic(r)
+		}
+	}()
+	e := env.NewE2(env.E2Options{Seed: drv.Seed(), Powers: kind.powers, NumUsers: nUsers,
 		Genesis: func(cdc codec.Codec, gs app.GenesisState) {
 			// the native denom carries bank metadata (definition of app.BankModule, as on the live chain)
 			var want, bg banktypes.GenesisState
@@ -142,15 +180,16 @@ func newWorld(target int64) *world {
 			gs[banktypes.ModuleName] = cdc.MustMarshalJSON(&bg)
 		}})
 	keepAlive = append(keepAlive, e)
-	w := &world{base: e, prepared: map[string]*preparedStage{}}
-	for i := 0; i < nVals; i++ {
+	w = &world{kind: kind, base: e, prepared: map[string]*preparedStage{}}
+	for i := range kind.powers {
 		k, err := crypto.ToECDSA(crypto.Keccak256([]byte(fmt.Sprintf("verif-chainhistory-eth-%d-%d", drv.Seed(), i))))
 		must(err)
 		w.ethKey = append(w.ethKey, k)
 		w.ethAddr = append(w.ethAddr, crypto.PubkeyToAddress(k.PublicKey))
 	}
-	_, err := e.DeliverBlock(nil)
-	must(err)
+	if _, err := e.DeliverBlock(nil); err != nil {
+		panic(blockAbort{err})
+	}
 	// governance: chains, compass contract, fee manager, deployer, treasury fees, bridged token, sale contract
 	must(e.Setup(func(ctx sdk.Context) error {
 		evmGov := evm.NewReferenceChainReferenceIDProposalHandler(e.App.EvmKeeper)
@@ -217,11 +256,25 @@ func newWorld(target int64) *world {
 	c.mustBlock(c.tpl("extinfo"), c.tpl("keepalive"), c.tpl("fee"))
 	// standing objects the templates refer to: a job, a user contract, a factory denom, a light node license
 	// (the transfer is batched by the end blocker of height 50; the batch waits for gas estimates from then on)
-	c.mustBlock(c.tpl("createjob"), c.tpl("uploaduser"), c.tpl("tfcreate"), c.tpl("lnlicense"), c.tpl("send"))
-	must(e.RunTo(target))
+	if len(kind.powers) >= 4 {
+		c.mustBlock(c.tpl("createjob"), c.tpl("uploaduser"), c.tpl("tfcreate"), c.tpl("lnlicense"), c.tpl("send"))
+		// the reference block request that the evm end blocker queues every 10 000 blocks (a height no history reaches) is
+		// queued now by the keeper function that end blocker calls
+		must(e.Setup(func(ctx sdk.Context) error {
+			for _, ch := range chains {
+				if err := e.App.EvmKeeper.ScheduleReferenceBlockForChain(ctx, ch); err != nil {
+					return err
+				}
+			}
+			return nil
+		}))
+	}
+	if err := e.RunTo(target); err != nil {
+		panic(blockAbort{err})
+	}
 	w.hash = hex.EncodeToString(e.AppHash())
 	w.height = e.Height
-	return w
+	return w, ""
 }
 
 // fork starts an independent continuation of the prepared world.
@@ -241,7 +294,9 @@ func (c *chain) mustBlock(txs ...[][]byte) {
 		all = append(all, t...)
 	}
 	res, err := c.e.DeliverBlock(all)
-	must(err)
+	if err != nil {
+		panic(blockAbort{err})
+	}
 	for i, r := range res.TxResults {
 		if r.Code != 0 {
 			panic(fmt.Sprintf("world preparation: tx %d failed: %s %d %s", i, r.Codespace, r.Code, r.Log))
@@ -249,6 +304,8 @@ func (c *chain) mustBlock(txs ...[][]byte) {
 	}
 }
 
+func (c *chain) nv() int                  { return len(c.e.Vals) }
+func (c *chain) silent(v int) bool        { return c.w.kind.silent[v] }
 func (c *chain) val(i int) *env.E2Val     { return &c.e.Vals[i] }
 func (c *chain) user(i int) *env.Account  { return c.e.User(i) }
 func (c *chain) ctx() sdk.Context         { return c.e.Ctx() }
